@@ -284,7 +284,7 @@ fn format_expression_internal(
                     .flat_map(|x| {
                         vec![
                             create_indent_trivia(ctx, shape),
-                            x.to_owned(),
+                            trivia_util::normalise_moved_comment(x),
                             create_newline_trivia(ctx),
                         ]
                     })
@@ -296,7 +296,10 @@ fn format_expression_internal(
                     .filter(|token| trivia_util::trivia_is_comment(token))
                     .flat_map(|x| {
                         // Prepend a single space beforehand
-                        vec![Token::new(TokenType::spaces(1)), x.to_owned()]
+                        vec![
+                            Token::new(TokenType::spaces(1)),
+                            trivia_util::normalise_moved_comment(x),
+                        ]
                     })
                     .collect();
 
